@@ -5,6 +5,7 @@ package main
 import (
 	"context"
 	"fmt"
+	"log/slog"
 	"math/rand"
 	"os"
 	"path/filepath"
@@ -15,6 +16,7 @@ import (
 
 	"reduction.dev/reduction/dkv/recovery"
 	"reduction.dev/reduction/proto/snapshotpb"
+	"reduction.dev/reduction/proto/workerpb"
 	"reduction.dev/reduction/util/vhook"
 	"verif/lib"
 	"verif/ophar"
@@ -60,6 +62,8 @@ type scriptEnv struct {
 	cutTimers map[string]int64
 	pinned    []any
 	blocked   map[string]bool // senders that already sent their barrier of the checkpoint in progress
+	completed map[string]bool // senders that sent SourceComplete in this deployment: barriers only from now on
+	lagLog    *lib.LagLogHandler
 	tuning    vhook.TuningValues
 	redeploys int
 	hookMu    sync.Mutex
@@ -112,7 +116,10 @@ func timerProgFor(seed int64) func(key []byte, t int64) ophar.Program {
 
 func newScriptEnv(c *lib.Ctx, fl flavour) *scriptEnv {
 	r := c.R
-	e := &scriptEnv{c: c, r: r, fl: fl, vg: &lib.ValueGen{Writer: "o"}, blocked: map[string]bool{}}
+	e := &scriptEnv{c: c, r: r, fl: fl, vg: &lib.ValueGen{Writer: "o"}, blocked: map[string]bool{}, completed: map[string]bool{}}
+	if fl.concurrent && r.Intn(2) == 0 {
+		e.lagLog = lib.NewLagLogHandler(r.Int63(), lib.Pick(r, []int{10, 30, 60}))
+	}
 	ns := 1 + r.Intn(3)
 	if fl.manySenders {
 		ns = 2 + r.Intn(3)
@@ -200,7 +207,12 @@ func (e *scriptEnv) startNode(ckpts []*snapshotpb.OperatorCheckpoint) {
 	if e.hasDelay {
 		delay = time.Hour // the harness timer decides when it fires
 	}
-	e.node = ophar.StartNode(ophar.NodeParams{ID: e.opID, Job: e.job, Handler: e.h, MaxSize: e.maxSize, MaxDelay: delay})
+	e.completed = map[string]bool{}
+	np := ophar.NodeParams{ID: e.opID, Job: e.job, Handler: e.h, MaxSize: e.maxSize, MaxDelay: delay}
+	if e.lagLog != nil {
+		np.Logger = slog.New(e.lagLog) // a slow log sink: every log call of the operator is a possible delay
+	}
+	e.node = ophar.StartNode(np)
 	if err := e.node.Deploy([]string{e.opID}, e.senders, e.keyGroups, e.location, ckpts); err != nil {
 		e.c.Fail("deploy-error", e.wit(), "HandleDeploy: %v", err)
 	}
@@ -252,7 +264,7 @@ func fmtTimers(m map[string]int64) []string {
 func (e *scriptEnv) freeSenders() []string {
 	var out []string
 	for _, s := range e.senders {
-		if !e.blocked[s] {
+		if !e.blocked[s] && !e.completed[s] {
 			out = append(out, s)
 		}
 	}
@@ -421,6 +433,33 @@ func (e *scriptEnv) stepTimeout() {
 	e.sync()
 }
 
+// stepSourceComplete: a source runner whose bounded input has ended tells the operator so. From then on it sends
+// no records and no watermarks, but it still forwards the barriers of every checkpoint, and the operator still
+// waits for them. (At least two runners stay active: the operator stops when the last one completes.)
+func (e *scriptEnv) stepSourceComplete() {
+	active := 0
+	for _, s := range e.senders {
+		if !e.completed[s] {
+			active++
+		}
+	}
+	free := e.freeSenders()
+	if active < 3 || len(free) == 0 || len(e.blocked) > 0 {
+		return
+	}
+	s := lib.Pick(e.r, free)
+	e.logOp("%s: source complete", s)
+	if len(e.model.Pending) > 0 {
+		e.model.Flush("source complete")
+	}
+	if err := e.node.Send(s, &workerpb.Event{Event: &workerpb.Event_SourceComplete{SourceComplete: &workerpb.SourceCompleteEvent{}}}); err != nil {
+		e.c.Fail("handle-event-error", e.wit(), "HandleEvent(source complete from %s): %v", s, err)
+	}
+	e.completed[s] = true
+	e.c.Feat("source_complete_events", 1)
+	e.sync()
+}
+
 // stepCheckpoint delivers the barriers of one checkpoint in a seeded order; senders that have not
 // sent theirs yet keep sending events in between.
 func (e *scriptEnv) stepCheckpoint() {
@@ -537,6 +576,7 @@ func (e *scriptEnv) stepRedeploy() {
 		e.logOp("redeploy IN PLACE from checkpoint %d as %s (the same operator object receives HandleDeploy again)", e.lastAck.CheckpointID, e.opID)
 		e.h.ResetShadow(e.cutShadow)
 		e.model.Restart(e.senders, e.cutTimers)
+		e.completed = map[string]bool{}
 		if err := e.node.Deploy([]string{e.opID}, e.senders, e.keyGroups, e.location, []*snapshotpb.OperatorCheckpoint{{CheckpointId: e.lastAck.CheckpointID, OperatorId: e.lastAck.OperatorID, DkvFileUri: e.lastAck.URI,
 			KeyGroupRange: &snapshotpb.KeyGroupRange{Start: int32(e.lastAck.Start), End: int32(e.lastAck.End)}}}); err != nil {
 			e.c.Fail("deploy-error", e.wit(), "HandleDeploy (in place): %v", err)
@@ -573,8 +613,13 @@ func (e *scriptEnv) run(nsteps int) {
 	fl := e.fl
 	for i := 0; i < nsteps; i++ {
 		total := 60 + fl.watermarks + 8 + 6 + 3 + 2
+		if len(e.senders) >= 3 {
+			total += 2
+		}
 		x := e.r.Intn(total)
 		switch {
+		case x >= 60+fl.watermarks+8+6+3+2:
+			e.stepSourceComplete()
 		case x < 60:
 			e.stepKeyed()
 		case x < 60+fl.watermarks:
@@ -596,6 +641,9 @@ func (e *scriptEnv) run(nsteps int) {
 	}
 	// final: drain by watermark jump (every pending timer fires), then a checkpoint, read back
 	for _, s := range e.senders {
+		if e.completed[s] {
+			continue // its watermark stays where it was: timers beyond it stay pending and must be in the checkpoint
+		}
 		t := e.model.Vector[s] + 1_000_000_000
 		e.logOp("%s: final watermark(%d)", s, t)
 		if err := e.node.Send(s, ophar.WatermarkEvent(t)); err != nil {
@@ -656,7 +704,7 @@ func (e *scriptEnv) stepCheckpointConcurrent() {
 			}
 		}
 		last := i == len(order)-1
-		willPark := !last && e.r.Intn(3) != 0 && !(wmMode && len(parked) > 0)
+		willPark := !last && e.r.Intn(3) != 0 && !(wmMode && len(parked) > 0) && !e.completed[s]
 		// batched: the barrier and the sender's next event arrive in ONE batch (the runner's per-operator
 		// batcher does not flush on a barrier), so alignment has to take hold in the middle of a batch
 		batched := willPark && e.r.Intn(2) == 0
